@@ -375,7 +375,7 @@ func (c04) Exec(c *core.Case) (out *core.Outcome) {
 	}
 	type touch struct {
 		call, path, where string
-		mutate bool
+		mutate            bool
 	}
 	var escapes []touch
 	classify := func(abs string) string {
